@@ -248,6 +248,17 @@ func BuildLedger(t *Trans) *Ledger {
 		}
 	}
 
+	// a pending request whose expiry block ends now must be settled in this step
+	if a.Kind == "E" {
+		for _, id := range pre.PendingIDs() {
+			r := pre.Reqs[id]
+			if r != nil && r.ExpirationHeight <= pre.H && post.ActiveByID[id] {
+				L.Problems = append(L.Problems, LedgerProblem{"expiry", "pending-request-settled-when-its-expiry-block-ends", "still-pending",
+					fmt.Sprintf("request %s expires at height %d but is still pending after the end of block %d (no refund, no slash)", shortReq(id), r.ExpirationHeight, pre.H)})
+			}
+		}
+	}
+
 	// binding operations
 	if res.OK() {
 		switch a.Kind {
